@@ -397,6 +397,16 @@ func (e *ControllerEngine) StartWatches(name string, ws ...Watch) error {
 	c.mx.Lock()
 	defer c.mx.Unlock()
 
+	// Another Goroutine may have started one of these watches (and thus its
+	// informer) since we built the map of active informers above. Build it
+	// again now that we hold the write lock, otherwise we'd start a second
+	// source for the same watch and leak the first one's event handler.
+	a = e.infs.ActiveInformers()
+	activeInformer = make(map[schema.GroupVersionKind]bool, len(a))
+	for _, gvk := range a {
+		activeInformer[gvk] = true
+	}
+
 	// Start new sources.
 	for i, w := range ws {
 		wid := WatchID{Type: w.wt, GVK: gvks[i]}
